@@ -184,6 +184,12 @@ func (a *genericAuthenticator) getSubjectInformation(ctx heimdall.Context, authD
 	if a.ttl > 0 {
 		cacheKey = a.calculateCacheKey(authData)
 		if entry, err := cch.Get(ctx.AppContext(), cacheKey); err == nil {
+			// the entry may have been stored by an authenticator which does not assert the session
+			// lifespan (the key does not tell): it is reused only if it satisfies the checks in force here
+			if err = a.assertSessionLifespan(entry); err != nil {
+				return nil, err
+			}
+
 			logger.Debug().Msg("Reusing subject information from cache")
 
 			return entry, nil
@@ -215,6 +221,25 @@ func (a *genericAuthenticator) getSubjectInformation(ctx heimdall.Context, authD
 	}
 
 	return payload, nil
+}
+
+func (a *genericAuthenticator) assertSessionLifespan(payload []byte) error {
+	if a.sessionLifespanConf == nil {
+		return nil
+	}
+
+	session, err := a.sessionLifespanConf.CreateSessionLifespan(payload)
+	if err != nil {
+		return errorchain.New(heimdall.ErrInternal).WithErrorContext(a).CausedBy(err)
+	}
+
+	if session != nil {
+		if err = session.Assert(); err != nil {
+			return errorchain.New(heimdall.ErrAuthentication).WithErrorContext(a).CausedBy(err)
+		}
+	}
+
+	return nil
 }
 
 func (a *genericAuthenticator) fetchSubjectInformation(ctx heimdall.Context, authData string) ([]byte, error) {
